@@ -165,6 +165,17 @@ def summarise_for(interp, st, it, frame):
         if nm == st.target.id:
             continue
         out = frame.locals.get(nm)
+        if isinstance(out, Guarded):
+            # assigned only on the iterations where `cond` holds: solvable when cond is  k == t
+            t = _solve_eq(out.cond, k)
+            if t is None or nm in carried_in:
+                raise Unsupported("variable %s is assigned under a condition that is not `loop variable == term` (line %d)"
+                                  % (nm, st.lineno))
+            inr = V.b_and(V.s_cmp(">=", t, lo), V.s_cmp("<", t, hi))
+            if V.known(inr) is not True:
+                raise Unsupported("cannot show that the iteration assigning %s is executed (line %d)" % (nm, st.lineno))
+            frame.locals[nm] = _subst(out.value, k, t)
+            continue
         if isinstance(out, (Arr, Arr2)):
             if nm in before and before[nm] is out:
                 continue
@@ -216,6 +227,22 @@ def summarise_for(interp, st, it, frame):
     else:
         for w in new_recs:
             _apply(w)
+
+
+def _solve_eq(cond, k):
+    """cond is `k == t` (t free of k): return t"""
+    import z3 as _z3
+    from .z3dom import lower
+    if isinstance(cond, bool) or not hasattr(cond, "e"):
+        return None
+    e = cond.e
+    if _z3.is_eq(e):
+        a, b = e.children()
+        if a.eq(k.e) and not _mentions(lower(b), k):
+            return lower(b)
+        if b.eq(k.e) and not _mentions(lower(a), k):
+            return lower(a)
+    return None
 
 
 def _flat(vals):
@@ -422,9 +449,9 @@ def merge_if(interp, st, c, frame):
         if a is b:
             frame.locals[nm] = a
         elif a is _MISSING:
-            frame.locals[nm] = b
+            frame.locals[nm] = Guarded(b, V.b_not(c)) if V.is_num(b) else b
         elif b is _MISSING:
-            frame.locals[nm] = a
+            frame.locals[nm] = Guarded(a, c) if V.is_num(a) else a
         elif V.is_num(a) and V.is_num(b):
             frame.locals[nm] = V.s_ite(c, a, b)
         else:
@@ -432,3 +459,11 @@ def merge_if(interp, st, c, frame):
 
 
 _MISSING = object()
+
+
+class Guarded:
+    """value of a variable that was assigned only in one arm of a merged branch"""
+
+    def __init__(self, value, cond):
+        self.value = value
+        self.cond = cond
